@@ -153,20 +153,40 @@ def run(ctx: Ctx) -> None:
         target = [[c + d[i] for i, c in enumerate(rot_own(p, a, ax, o))] for p in pts]
         cls = HexGrid if kind == "hex" else QuadGrid
 
-        def run():
-            grid = cls(np.array(pts, dtype=float), addressing)
+        def run(container="float-array", tgt=None):
+            tgt = tgt or target
+            given = {"float-array": lambda: np.array(pts, dtype=float), "list": lambda: [[float(c) for c in p] for p in pts],
+                     "int-array": lambda: np.array([[int(round(c)) for c in p] for p in pts])}[container]()
+            grid = cls(given, addressing)
             before = [float(c.quality) for c in grid.cells]          # evaluated (and cached) before the move
-            for i, p in enumerate(target):
+            for i, p in enumerate(tgt):
                 grid.update(i, np.array(p, dtype=float))
             after = [float(c.quality) for c in grid.cells]
-            fresh = [float(c.quality) for c in cls(np.array(target, dtype=float), addressing).cells]
+            fresh = [float(c.quality) for c in cls(np.array(tgt, dtype=float), addressing).cells]
             return before, after, fresh
-        out = q_safe(run, what)
-        ctx.evaluated(what)
-        if out is not None:
-            before, after, fresh = out
-            for k in range(len(before)):
-                add("equal", f"moved-grid:{what}", codes=[code(before[k]), code(after[k]), code(fresh[k])], tol=50)
+        # the points may be handed over as a float array, as plain lists, or (integer coordinates, moved by a rotation that
+        # keeps them integers: x -> y -> z -> x plus an integer shift) as an integer array
+        turned = [[p[1] + 2.0, p[2] - 1.0, p[0] + 4.0] for p in pts]
+        variants = [("float-array", None), ("list", None)]
+        if all(abs(c - round(c)) < 1e-12 for p in pts for c in p):
+            variants.append(("int-array", turned))
+        for container, tgt in variants:
+            out = q_safe(lambda: run(container, tgt), what)
+            ctx.evaluated(f"{what}:{container}")
+            if out is not None:
+                before, after, fresh = out
+                for k in range(len(before)):
+                    add("equal", f"moved-grid:{what}" + ("" if container == "float-array" else f":{container}"),
+                        codes=[code(before[k]), code(after[k]), code(fresh[k])], tol=50)
+            # ... and after a move that does change the shape (stretched three times along z): the value of the grid built anew
+            stretched = [[p[0], p[1], 3.0 * p[2]] for p in pts]
+            out = q_safe(lambda: run(container, stretched), what)
+            ctx.evaluated(f"{what}:{container}:stretched")
+            if out is not None:
+                _, after, fresh = out
+                for k in range(len(after)):
+                    add("equal", f"reshaped-grid:{what}" + ("" if container == "float-array" else f":{container}"),
+                        codes=[code(after[k]), code(fresh[k])], tol=50)
 
     for name, nb in cat["neighbours"].items():
         base = [list(map(float, cat["hex"][name][k])) for k in range(8)]
